@@ -42,6 +42,15 @@ func main() {
 			tier = "quick"
 		}
 		os.Exit(checkMain(os.Args[2], tier))
+	case "selftest":
+		// verif selftest determinism <n> <prop>...
+		if len(os.Args) < 5 || os.Args[2] != "determinism" {
+			fmt.Fprintln(os.Stderr, "usage: verif selftest determinism <nseeds> <prop>...")
+			os.Exit(2)
+		}
+		n := 0
+		fmt.Sscan(os.Args[3], &n)
+		os.Exit(selftestDeterminism(os.Args[4:], n))
 	case "replay":
 		if len(os.Args) < 3 {
 			fmt.Fprintln(os.Stderr, "usage: verif replay <case.json>")
